@@ -105,11 +105,14 @@ func runC08(c *Ctx) {
 	{
 		var wire func(fn *ssa.Function, helper string, argIdx int, depth int) (string, bool, bool)
 		wire = func(fn *ssa.Function, helper string, argIdx int, depth int) (string, bool, bool) {
-			for _, call := range AllCalls(fn) {
-				if strings.HasSuffix(CalleeName(call.Common()), helper) {
-					t := T(call.Common().Args[argIdx])
-					return t.String(), reachable2(call.Block(), call.Block()), true
+			found, ft, fl := false, "", false
+			eachCallCtx(fn, func(call ssa.CallInstruction, lift func(*Term) *Term, inLoop bool) {
+				if !found && strings.HasSuffix(CalleeName(call.Common()), helper) {
+					found, ft, fl = true, lift(newTB().of(call.Common().Args[argIdx], 0)).String(), inLoop
 				}
+			})
+			if found {
+				return ft, fl, true
 			}
 			if depth > 2 {
 				return "", false, false
@@ -297,11 +300,11 @@ func runC08(c *Ctx) {
 	// ---- I1 IDs
 	{
 		n := 0
-		for _, fn := range p.OwnFuncs {
+		for _, fn := range p.Subjects() {
 			if !strings.HasPrefix(FuncKey(fn), "pkg/blockchain.") || len(fn.Blocks) == 0 {
 				continue
 			}
-			for _, b := range fn.Blocks {
+			for _, b := range blocksDeep(fn) {
 				for _, in := range b.Instrs {
 					st, ok := in.(*ssa.Store)
 					if !ok {
@@ -382,7 +385,7 @@ func runC08(c *Ctx) {
 		fn := c.Anchor(pr[2])
 		if fn != nil {
 			assigned := map[string]string{}
-			for _, b := range fn.Blocks {
+			for _, b := range blocksDeep(fn) {
 				for _, in := range b.Instrs {
 					if st, ok := in.(*ssa.Store); ok {
 						if fa, ok := st.Addr.(*ssa.FieldAddr); ok {
@@ -432,7 +435,7 @@ func runC08(c *Ctx) {
 			for _, call := range AllCalls(rd) {
 				_ = call
 			}
-			for _, b := range rd.Blocks {
+			for _, b := range blocksDeep(rd) {
 				for _, in := range b.Instrs {
 					if st, ok := in.(*ssa.Store); ok {
 						if fa, ok := st.Addr.(*ssa.FieldAddr); ok {
